@@ -687,58 +687,6 @@ Proof. unfold wsame. intros s1 s2 s3 A B. intuition congruence. Qed.
 Lemma wsame_set_when : forall s wb wctx cl, wsame s (set_when s wb wctx cl).
 Proof. intros. unfold wsame. psimpl. repeat split. Qed.
 
-(* one visit of ProcessWhen's inner loop to a live binding, for one of its states *)
-Lemma visit_wb_live : forall s h1 h2 b x v f,
-  ss_done s = [] -> ss_wb s = h1 ++ b :: h2 ->
-  (forall y, In y h1 -> wb_id y <> wb_id b) -> (forall y, In y h2 -> wb_id y <> wb_id b) ->
-  live (ss_closed s) f b -> In x (wb_states b) ->
-  let s' := visit_wb s (wb_id b) x v in
-  exists b', wb_id b' = wb_id b /\ wb_neg b' = wb_neg b /\ wb_states b' = wb_states b /\
-    ss_wb s' = h1 ++ b' :: h2 /\ wsame s s' /\
-    ((full (wb_neg b) (upd f x v) (wb_states b) = false /\ ss_closed s' = ss_closed s /\
-      live (ss_closed s) (upd f x v) b')
-     \/ (full (wb_neg b) (upd f x v) (wb_states b) = true /\
-         ss_closed s' = close (ss_closed s) (wb_id b) /\ dead (ss_closed s') b')).
-Proof.
-  intros s h1 h2 b x v f Hdone Hwb H1 H2 [A [B [C [D [E [F [G I]]]]]]] Hx s'.
-  subst s'. unfold visit_wb. rewrite Hwb, (find_wb_mid h1 h2 b H1).
-  set (fl := aget (wb_flags b) x).
-  set (m' := if v then (if fl then wb_matched b else if wb_neg b then (wb_matched b - 1)%Z else (wb_matched b + 1)%Z)
-             else (if fl then (if wb_neg b then (wb_matched b + 1)%Z else (wb_matched b - 1)%Z) else wb_matched b)).
-  set (b1 := wb_set_match b (aset (wb_flags b) x v) m').
-  assert (Hexp : ctx_done s (wb_ctx b) = false).
-  { unfold ctx_done. destruct (wb_ctx b); [|reflexivity]. rewrite Hdone. reflexivity. }
-  rewrite Hexp.
-  assert (Hm' : m' = Z.of_nat (cnt (wb_neg b) (upd f x v) (wb_states b))).
-  { rewrite (cnt_upd (wb_neg b) f x v (wb_states b) B Hx). rewrite <- G.
-    subst m' fl. rewrite (F x Hx). unfold P, upd. rewrite Nat.eqb_refl.
-    destruct v, (f x), (wb_neg b); simpl; lia. }
-  assert (Hfl : forall y, In y (wb_states b) -> aget (wb_flags b1) y = upd f x v y).
-  { intros y Hy. subst b1. cbn. unfold upd. destruct (Nat.eqb y x) eqn:Ey.
-    - apply Nat.eqb_eq in Ey. subst y. apply aget_aset_same.
-    - apply Nat.eqb_neq in Ey. rewrite aget_aset_other by exact Ey. apply F. exact Hy. }
-  assert (Hput : put_wb (h1 ++ b :: h2) b1 = h1 ++ b1 :: h2).
-  { apply put_wb_split; [reflexivity | exact H1 | exact H2]. }
-  rewrite Hput.
-  destruct (m' <? Z.of_nat (wb_total b))%Z eqn:Elt; cbn [andb negb].
-  - exists b1. do 4 (split; [reflexivity|]). split; [apply wsame_set_when|].
-    left. split; [|split; [reflexivity|]].
-    + apply cnt_lt_full. apply Z.ltb_lt in Elt. rewrite E in Elt. lia.
-    + apply Z.ltb_lt in Elt. unfold live. subst b1. cbn [wb_set_match wb_idx wb_states wb_id wb_total wb_neg wb_matched wb_flags].
-      repeat split; auto.
-  - pose proof (gc_when_split h1 h2 b1 (ss_wctx s) true H1 H2) as Hgc.
-    change (wb_id b1) with (wb_id b) in Hgc.
-    destruct (gc_when (h1 ++ b1 :: h2) (ss_wctx s) b1 true) as [hh wc] eqn:Egc.
-    cbn [fst] in Hgc. rewrite Hgc by (subst b1; cbn; assumption).
-    exists (wb_set_idx b1 []). do 4 (split; [reflexivity|]). split; [apply wsame_set_when|].
-    right. split; [|split; [reflexivity|]].
-    + apply cnt_full. apply Z.ltb_ge in Elt. pose proof (cnt_le (wb_neg b) (upd f x v) (wb_states b)).
-      rewrite E in Elt. lia.
-    + unfold dead. psimpl. split; [reflexivity|]. cbn. apply close_self.
-Qed.
-
-(* ------------------------------------------------------------ ProcessWhen: inner loop *)
-
 Lemma live_cl : forall cl cl' f b, live cl f b -> mem (wb_id b) cl' = false -> live cl' f b.
 Proof. intros cl cl' f b [A [B [C [D E]]]] H. repeat split; auto; apply E. Qed.
 
@@ -765,120 +713,7 @@ Qed.
 Lemma mem_cons_ne : forall i id l, i <> id -> mem i (id :: l) = mem i l.
 Proof. intros i id l H. cbn [mem existsb]. apply Nat.eqb_neq in H. rewrite H. reflexivity. Qed.
 
-Section Inner.
-  Variables (y : nat) (v : bool) (fp : nat -> bool).
-  Let fq := upd fp y v.
 
-  Definition status (cl : list nat) (b b' : wbind) (visited : bool) : Prop :=
-    wb_id b' = wb_id b /\ wb_neg b' = wb_neg b /\ wb_states b' = wb_states b /\
-    (if visited
-     then (live cl fq b' /\ full (wb_neg b) fq (wb_states b) = false)
-          \/ (dead cl b' /\ full (wb_neg b) fq (wb_states b) = true)
-     else b' = b).
-
-  Lemma inner_loop : forall ids s,
-    ss_done s = [] -> NoDup ids -> NoDup (map wb_id (ss_wb s)) ->
-    (forall b, In b (ss_wb s) ->
-       if mem (wb_id b) ids then live (ss_closed s) fp b /\ In y (wb_states b)
-       else wb_ok (ss_closed s) fq b) ->
-    let s' := fold_left (fun st id => visit_wb st id y v) ids s in
-    wsame s s' /\ map wb_id (ss_wb s') = map wb_id (ss_wb s) /\
-    (forall b', In b' (ss_wb s') -> wb_ok (ss_closed s') fq b') /\
-    (forall i, mem i (ss_closed s) = true -> mem i (ss_closed s') = true) /\
-    (forall i, mem i (ss_closed s') = true -> mem i (ss_closed s) = true \/ In i ids) /\
-    (forall b, In b (ss_wb s) -> exists b', In b' (ss_wb s') /\
-       status (ss_closed s') b b' (mem (wb_id b) ids)).
-  Proof.
-    induction ids as [|id rest IH]; intros s Hdone Hnd Hids Hall; cbn zeta; simpl fold_left.
-    - split; [apply wsame_refl|]. split; [reflexivity|]. split.
-      { intros b' Hb'. exact (Hall b' Hb'). }
-      split; [tauto|]. split; [tauto|].
-      intros b Hb. exists b. split; [exact Hb|]. unfold status. cbn. tauto.
-    - inversion Hnd as [|? ? Hid Hrest]. subst.
-      destruct (find_wb (ss_wb s) id) as [b0|] eqn:Ef.
-      + (* the binding is visited *)
-        destruct (find_wb_split _ _ _ Hids Ef) as [h1 [h2 [Hh [Hb0 [H1 H2]]]]].
-        subst id.
-        assert (Hin0 : In b0 (ss_wb s)) by (rewrite Hh; apply in_or_app; right; left; reflexivity).
-        pose proof (Hall b0 Hin0) as Hl. cbn [mem existsb] in Hl. rewrite Nat.eqb_refl in Hl.
-        cbn [orb] in Hl. destruct Hl as [Hlive Hy].
-        destruct (visit_wb_live s h1 h2 b0 y v fp Hdone Hh H1 H2 Hlive Hy)
-          as [b1 [Hb1 [Hn1 [Hs1 [Hwb1 [Hsame1 Hres]]]]]].
-        set (s1 := visit_wb s (wb_id b0) y v) in *.
-        assert (Hcl1 : forall i, mem i (ss_closed s1) = true ->
-                                 mem i (ss_closed s) = true \/ i = wb_id b0).
-        { intros i Hi. destruct Hres as [[_ [Hc _]]|[_ [Hc _]]]; rewrite Hc in Hi; [tauto|].
-          apply close_mem in Hi. tauto. }
-        assert (Hmono1 : forall i, mem i (ss_closed s) = true -> mem i (ss_closed s1) = true).
-        { intros i Hi. destruct Hres as [[_ [Hc _]]|[_ [Hc _]]]; rewrite Hc; [exact Hi|].
-          apply close_mono. exact Hi. }
-        assert (Hids1 : map wb_id (ss_wb s1) = map wb_id (ss_wb s)).
-        { rewrite Hwb1, Hh. repeat rewrite map_app. simpl. rewrite Hb1. reflexivity. }
-        assert (Hok1 : wb_ok (ss_closed s1) fq b1).
-        { destruct Hres as [[_ [Hc Hl1]]|[_ [_ Hd1]]]; [right; rewrite Hc; exact Hl1 | left; exact Hd1]. }
-        destruct (IH s1) as [Hsame [Hids' [Hok' [Hmono' [Hcl' Htr']]]]].
-        * destruct Hsame1 as [_ [_ [_ [_ [_ [_ [_ [_ [_ [Hd _]]]]]]]]]]. congruence.
-        * exact Hrest.
-        * rewrite Hids1. exact Hids.
-        * intros b Hb. rewrite Hwb1 in Hb. apply in_app_or in Hb.
-          assert (Hother : forall b2, In b2 (ss_wb s) -> wb_id b2 <> wb_id b0 ->
-                    if mem (wb_id b2) rest then live (ss_closed s1) fp b2 /\ In y (wb_states b2)
-                    else wb_ok (ss_closed s1) fq b2).
-          { intros b2 Hb2 Hne. pose proof (Hall b2 Hb2) as Hx. rewrite (mem_cons_ne _ _ _ Hne) in Hx.
-            destruct (mem (wb_id b2) rest).
-            - destruct Hx as [Hx1 Hx2]. split; [|exact Hx2]. eapply live_cl; [exact Hx1|].
-              destruct (mem (wb_id b2) (ss_closed s1)) eqn:Em; [|reflexivity].
-              destruct (Hcl1 _ Em) as [Hc|Hc]; [|contradiction].
-              destruct Hx1 as [_ [_ [_ [D _]]]]. congruence.
-            - eapply wb_ok_cl; [exact Hx | exact Hmono1 |].
-              intros Hm. destruct (Hcl1 _ Hm) as [Hc|Hc]; [exact Hc | contradiction]. }
-          destruct Hb as [Hb|[Hb|Hb]].
-          -- apply Hother; [rewrite Hh; apply in_or_app; left; exact Hb | apply H1; exact Hb].
-          -- subst b. rewrite Hb1. apply mem_false in Hid. rewrite Hid. exact Hok1.
-          -- apply Hother; [rewrite Hh; apply in_or_app; right; right; exact Hb | apply H2; exact Hb].
-        * split; [eapply wsame_trans; eassumption|].
-          split; [congruence|]. split; [exact Hok'|].
-          split; [intros i Hi; apply Hmono'; apply Hmono1; exact Hi|].
-          split.
-          { intros i Hi. destruct (Hcl' i Hi) as [Hc|Hc]; [|right; right; exact Hc].
-            destruct (Hcl1 i Hc) as [Hc1|Hc1]; [tauto | right; left; congruence]. }
-          intros b Hb.
-          destruct (Nat.eq_dec (wb_id b) (wb_id b0)) as [Heq|Hne].
-          -- (* the visited binding itself *)
-             assert (b = b0).
-             { rewrite Hh in Hb. apply in_app_or in Hb. destruct Hb as [Hb|[Hb|Hb]];
-                 [exfalso; apply (H1 b Hb Heq) | congruence | exfalso; apply (H2 b Hb Heq)]. }
-             subst b.
-             assert (Hin1 : In b1 (ss_wb s1)) by (rewrite Hwb1; apply in_or_app; right; left; reflexivity).
-             destruct (Htr' b1 Hin1) as [b' [Hb' [Hi' [Hn' [Hs' Hst']]]]].
-             rewrite Hb1 in Hst'. apply mem_false in Hid. rewrite Hid in Hst'. subst b'.
-             exists b1. split; [exact Hb'|]. unfold status. cbn [mem existsb]. rewrite Nat.eqb_refl.
-             cbn [orb]. repeat split; auto.
-             destruct Hres as [[Hf [Hc Hl1]]|[Hf [Hc Hd1]]].
-             ++ left. split; [|exact Hf]. eapply live_cl; [exact Hl1|].
-                destruct (mem (wb_id b1) (ss_closed _)) eqn:Em; [|reflexivity].
-                destruct (Hcl' _ Em) as [Hx|Hx].
-                ** rewrite Hc in Hx. destruct Hl1 as [_ [_ [_ [D _]]]]. congruence.
-                ** exfalso. rewrite Hb1 in Hx. apply mem_In in Hx. congruence.
-             ++ right. split; [|exact Hf]. eapply dead_cl; [exact Hd1 | exact Hmono'].
-          -- (* another binding *)
-             assert (Hin1 : In b (ss_wb s1)).
-             { rewrite Hwb1. rewrite Hh in Hb. apply in_app_or in Hb. apply in_or_app.
-               destruct Hb as [Hb|[Hb|Hb]]; [tauto | congruence | right; right; exact Hb]. }
-             destruct (Htr' b Hin1) as [b' [Hb' Hst']].
-             exists b'. split; [exact Hb'|]. rewrite (mem_cons_ne _ _ _ Hne). exact Hst'.
-      + (* no binding with this id: nothing happens *)
-        assert (Hv : visit_wb s id y v = s) by (unfold visit_wb; rewrite Ef; reflexivity).
-        rewrite Hv.
-        destruct (IH s Hdone Hrest Hids) as [Hsame [Hids' [Hok' [Hmono' [Hcl' Htr']]]]].
-        * intros b Hb. pose proof (Hall b Hb) as Hx.
-          rewrite (mem_cons_ne _ _ _ (find_wb_None _ _ Ef b Hb)) in Hx. exact Hx.
-        * split; [exact Hsame|]. split; [exact Hids'|]. split; [exact Hok'|]. split; [exact Hmono'|].
-          split; [intros i Hi; destruct (Hcl' i Hi); [tauto | right; right; assumption]|].
-          intros b Hb. destruct (Htr' b Hb) as [b' [Hb' Hst']]. exists b'. split; [exact Hb'|].
-          rewrite (mem_cons_ne _ _ _ (find_wb_None _ _ Ef b Hb)). exact Hst'.
-  Qed.
-End Inner.
 
 (* ------------------------------------------------------------ ProcessWhen: the walk *)
 
@@ -940,125 +775,397 @@ Proof.
   intros cl f b [[A _]|[A [B _]]]; [rewrite A; constructor | rewrite A; exact B].
 Qed.
 
-Section Outer.
-  Variables (a : nat -> bool) (act deact : list nat).
-  Let all := act ++ deact.
+(* ---- pass 1: flags and counters only *)
+
+(* a binding in the index whose flags / counter describe activity f; the
+   counter may have reached the total (between the two passes) *)
+Definition pre (cl : list nat) (f : nat -> bool) (b : wbind) : Prop :=
+  wb_idx b = wb_states b /\ NoDup (wb_states b) /\ wb_states b <> [] /\
+  mem (wb_id b) cl = false /\ wb_total b = length (wb_states b) /\
+  (forall x, In x (wb_states b) -> aget (wb_flags b) x = f x) /\
+  wb_matched b = Z.of_nat (cnt (wb_neg b) f (wb_states b)).
+
+Definition pok (cl : list nat) (f : nat -> bool) (b : wbind) : Prop := dead cl b \/ pre cl f b.
+
+Lemma live_pre : forall cl f b, live cl f b <-> pre cl f b /\ (wb_matched b < Z.of_nat (wb_total b))%Z.
+Proof. intros. unfold live, pre. tauto. Qed.
+
+Lemma pre_ext : forall cl f g b, (forall x, In x (wb_states b) -> f x = g x) -> pre cl f b -> pre cl g b.
+Proof.
+  intros cl f g b H [A [B [C [D [E [F G]]]]]]. repeat split; auto.
+  - intros x Hx. rewrite <- (H x Hx). apply F. exact Hx.
+  - rewrite G. f_equal. apply cnt_ext. exact H.
+Qed.
+
+Lemma pok_ext : forall cl f g b, (forall x, In x (wb_states b) -> f x = g x) -> pok cl f b -> pok cl g b.
+Proof. intros cl f g b H [Hd|Hp]; [left; exact Hd | right; eapply pre_ext; eassumption]. Qed.
+
+Lemma wb_ok_pok : forall cl f b, wb_ok cl f b -> pok cl f b.
+Proof. intros cl f b [H|H]; [left; exact H | right; apply live_pre in H; tauto]. Qed.
+
+Lemma pok_NoDup_idx : forall cl f b, pok cl f b -> NoDup (wb_idx b).
+Proof. intros cl f b [[A _]|[A [B _]]]; [rewrite A; constructor | rewrite A; exact B]. Qed.
+
+(* same identity, kind, states and index entries *)
+Definition shape (b b' : wbind) : Prop :=
+  wb_id b' = wb_id b /\ wb_neg b' = wb_neg b /\ wb_states b' = wb_states b /\ wb_idx b' = wb_idx b.
+
+Lemma shape_refl : forall b, shape b b.
+Proof. intros b. unfold shape. tauto. Qed.
+
+Lemma touch_wb_pre : forall s h1 h2 b x v f,
+  ss_wb s = h1 ++ b :: h2 ->
+  (forall y, In y h1 -> wb_id y <> wb_id b) -> (forall y, In y h2 -> wb_id y <> wb_id b) ->
+  pre (ss_closed s) f b -> In x (wb_states b) ->
+  exists b', shape b b' /\
+    touch_wb s (wb_id b) x v = set_when s (h1 ++ b' :: h2) (ss_wctx s) (ss_closed s) /\
+    pre (ss_closed s) (upd f x v) b'.
+Proof.
+  intros s h1 h2 b x v f Hwb H1 H2 [A [B [C [D [E [F G]]]]]] Hx.
+  unfold touch_wb. rewrite Hwb, (find_wb_mid h1 h2 b H1).
+  set (fl := aget (wb_flags b) x).
+  set (m' := if v then (if fl then wb_matched b else if wb_neg b then (wb_matched b - 1)%Z else (wb_matched b + 1)%Z)
+             else (if fl then (if wb_neg b then (wb_matched b + 1)%Z else (wb_matched b - 1)%Z) else wb_matched b)).
+  set (b1 := wb_set_match b (aset (wb_flags b) x v) m').
+  assert (Hm' : m' = Z.of_nat (cnt (wb_neg b) (upd f x v) (wb_states b))).
+  { rewrite (cnt_upd (wb_neg b) f x v (wb_states b) B Hx). rewrite <- G.
+    subst m' fl. rewrite (F x Hx). unfold P, upd. rewrite Nat.eqb_refl.
+    destruct v, (f x), (wb_neg b); simpl; lia. }
+  assert (Hfl : forall y, In y (wb_states b) -> aget (wb_flags b1) y = upd f x v y).
+  { intros y Hy. subst b1. cbn. unfold upd. destruct (Nat.eqb y x) eqn:Ey.
+    - apply Nat.eqb_eq in Ey. subst y. apply aget_aset_same.
+    - apply Nat.eqb_neq in Ey. rewrite aget_aset_other by exact Ey. apply F. exact Hy. }
+  exists b1. split; [unfold shape; subst b1; cbn; tauto|]. split.
+  - f_equal. apply put_wb_split; [reflexivity | exact H1 | exact H2].
+  - unfold pre. subst b1. cbn [wb_set_match wb_idx wb_states wb_id wb_total wb_neg wb_matched wb_flags].
+    repeat split; auto.
+Qed.
+
+Lemma Forall2_mid : forall (R : wbind -> wbind -> Prop) h1 h2 b b',
+  (forall x, R x x) -> R b b' -> Forall2 R (h1 ++ b :: h2) (h1 ++ b' :: h2).
+Proof.
+  intros R h1 h2 b b' Hr Hb. apply Forall2_app.
+  - induction h1; constructor; auto.
+  - constructor; [exact Hb|]. induction h2; constructor; auto.
+Qed.
+
+Lemma Forall2_trans' : forall (R1 R2 R3 : wbind -> wbind -> Prop) l1 l2 l3,
+  (forall x y z, R1 x y -> R2 y z -> R3 x z) ->
+  Forall2 R1 l1 l2 -> Forall2 R2 l2 l3 -> Forall2 R3 l1 l3.
+Proof.
+  intros R1 R2 R3 l1 l2 l3 H A. revert l3. induction A; intros l3 B; inversion B; subst; constructor; eauto.
+Qed.
+
+Lemma Forall2_In_l : forall (R : wbind -> wbind -> Prop) l1 l2 x,
+  Forall2 R l1 l2 -> In x l1 -> exists y, In y l2 /\ R x y.
+Proof.
+  intros R l1 l2 x A. induction A; intros Hin; [contradiction|].
+  destruct Hin as [Hin|Hin]; [subst; eexists; split; [left; reflexivity | assumption]|].
+  destruct (IHA Hin) as [z [Hz Hr]]. exists z. split; [right; exact Hz | exact Hr].
+Qed.
+
+Lemma Forall2_In_r : forall (R : wbind -> wbind -> Prop) l1 l2 y,
+  Forall2 R l1 l2 -> In y l2 -> exists x, In x l1 /\ R x y.
+Proof.
+  intros R l1 l2 y A. induction A; intros Hin; [contradiction|].
+  destruct Hin as [Hin|Hin]; [subst; eexists; split; [left; reflexivity | assumption]|].
+  destruct (IHA Hin) as [z [Hz Hr]]. exists z. split; [right; exact Hz | exact Hr].
+Qed.
+
+Lemma Forall2_impl_In : forall (R R' : wbind -> wbind -> Prop) l1 l2,
+  (forall x y, In x l1 -> R x y -> R' x y) -> Forall2 R l1 l2 -> Forall2 R' l1 l2.
+Proof.
+  intros R R' l1 l2 H A. induction A; constructor.
+  - apply H; [left; reflexivity | assumption].
+  - apply IHA. intros x0 y0 Hx0. apply H. right. exact Hx0.
+Qed.
+
+Lemma Forall2_ids : forall l1 l2, Forall2 (fun b b' => wb_id b' = wb_id b) l1 l2 ->
+  map wb_id l2 = map wb_id l1.
+Proof. intros l1 l2 A. induction A; simpl; congruence. Qed.
+
+Section Touch.
+  Variables (y : nat) (v : bool) (fp : nat -> bool).
+  Let fq := upd fp y v.
+
+  (* the bindings listed in [ids] get their flag of y set, the others stay *)
+  Definition touched_rel (ids : list nat) (b b' : wbind) : Prop :=
+    if mem (wb_id b) ids then shape b b' else b' = b.
+
+  Lemma touch_loop : forall ids s,
+    NoDup ids -> NoDup (map wb_id (ss_wb s)) ->
+    (forall b, In b (ss_wb s) ->
+       if mem (wb_id b) ids then pre (ss_closed s) fp b /\ In y (wb_states b)
+       else pok (ss_closed s) fq b) ->
+    let s' := fold_left (fun st id => touch_wb st id y v) ids s in
+    wsame s s' /\ ss_closed s' = ss_closed s /\
+    (forall b', In b' (ss_wb s') -> pok (ss_closed s) fq b') /\
+    Forall2 (touched_rel ids) (ss_wb s) (ss_wb s').
+  Proof.
+    induction ids as [|id rest IH]; intros s Hnd Hids Hall; cbn zeta; simpl fold_left.
+    - split; [apply wsame_refl|]. split; [reflexivity|]. split; [exact Hall|].
+      assert (G : forall l : list wbind, Forall2 (touched_rel []) l l).
+      { induction l; constructor; auto. unfold touched_rel. reflexivity. }
+      apply G.
+    - inversion Hnd as [|? ? Hid Hrest]. subst.
+      destruct (find_wb (ss_wb s) id) as [b0|] eqn:Ef.
+      + destruct (find_wb_split _ _ _ Hids Ef) as [h1 [h2 [Hh [Hb0 [H1 H2]]]]]. subst id.
+        assert (Hin0 : In b0 (ss_wb s)) by (rewrite Hh; apply in_or_app; right; left; reflexivity).
+        pose proof (Hall b0 Hin0) as Hl. cbn [mem existsb] in Hl. rewrite Nat.eqb_refl in Hl.
+        cbn [orb] in Hl. destruct Hl as [Hpre Hy].
+        destruct (touch_wb_pre s h1 h2 b0 y v fp Hh H1 H2 Hpre Hy) as [b1 [Hsh [Heq Hpre1]]].
+        rewrite Heq. set (s1 := set_when s (h1 ++ b1 :: h2) (ss_wctx s) (ss_closed s)).
+        assert (Hb1 : wb_id b1 = wb_id b0) by apply Hsh.
+        destruct (IH s1) as [Hsame [Hcl [Hok Hrel]]].
+        * exact Hrest.
+        * unfold s1. psimpl. rewrite Hh in Hids. repeat rewrite map_app in *. simpl in *. rewrite Hb1. exact Hids.
+        * unfold s1. psimpl. intros b Hb. apply in_app_or in Hb.
+          assert (Hother : forall b2, In b2 (ss_wb s) -> wb_id b2 <> wb_id b0 ->
+                    if mem (wb_id b2) rest then pre (ss_closed s) fp b2 /\ In y (wb_states b2)
+                    else pok (ss_closed s) fq b2).
+          { intros b2 Hb2 Hne. pose proof (Hall b2 Hb2) as Hx. rewrite (mem_cons_ne _ _ _ Hne) in Hx. exact Hx. }
+          destruct Hb as [Hb|[Hb|Hb]].
+          -- apply Hother; [rewrite Hh; apply in_or_app; left; exact Hb | apply H1; exact Hb].
+          -- subst b. rewrite Hb1. apply mem_false in Hid. rewrite Hid. right. exact Hpre1.
+          -- apply Hother; [rewrite Hh; apply in_or_app; right; right; exact Hb | apply H2; exact Hb].
+        * split; [eapply wsame_trans; [apply wsame_set_when | exact Hsame]|].
+          split; [rewrite Hcl; reflexivity|]. split; [exact Hok|].
+          eapply Forall2_trans'; [| |exact Hrel].
+          2: { unfold s1. psimpl. rewrite Hh. apply (Forall2_mid (fun b b' => if Nat.eqb (wb_id b) (wb_id b0) then shape b b' else b' = b)).
+               - intros x. destruct (Nat.eqb (wb_id x) (wb_id b0)); [apply shape_refl | reflexivity].
+               - rewrite Nat.eqb_refl. exact Hsh. }
+          intros x z w R1 R2. unfold touched_rel in *. cbn [mem existsb].
+          destruct (Nat.eqb (wb_id x) (wb_id b0)) eqn:E; cbn [orb].
+          -- (* x is the touched binding: z is its image, untouched by the rest *)
+             assert (Hz : wb_id z = wb_id b0) by (apply Nat.eqb_eq in E; destruct R1 as [R1 _]; congruence).
+             rewrite Hz in R2. apply mem_false in Hid. rewrite Hid in R2. subst w. exact R1.
+          -- subst z. exact R2.
+      + assert (Hv : touch_wb s id y v = s) by (unfold touch_wb; rewrite Ef; reflexivity).
+        rewrite Hv.
+        destruct (IH s Hrest Hids) as [Hsame [Hcl [Hok Hrel]]].
+        * intros b Hb. pose proof (Hall b Hb) as Hx.
+          rewrite (mem_cons_ne _ _ _ (find_wb_None _ _ Ef b Hb)) in Hx. exact Hx.
+        * split; [exact Hsame|]. split; [exact Hcl|]. split; [exact Hok|].
+          assert (G : forall l1 l2, (forall b, In b l1 -> wb_id b <> id) ->
+                      Forall2 (touched_rel rest) l1 l2 -> Forall2 (touched_rel (id :: rest)) l1 l2).
+          { intros l1 l2 Hne A. induction A; constructor.
+            - unfold touched_rel in *. rewrite (mem_cons_ne _ _ _ (Hne x (or_introl eq_refl))). assumption.
+            - apply IHA. intros b Hb. apply Hne. right. exact Hb. }
+          apply G; [apply (find_wb_None _ _ Ef) | exact Hrel].
+  Qed.
+End Touch.
+
+Section Pass1.
+  Variables (a : nat -> bool) (act : list nat).
   Let fh (p : list nat) := hybrid a act p.
 
-  (* position n of the walk completes binding b *)
-  Definition hit (b : wbind) (n : nat) : bool :=
-    mem (nth (n - 1) all 0) (wb_states b) && full (wb_neg b) (fh (firstn n all)) (wb_states b).
+  (* a binding none of whose index states is walked is not touched *)
+  Definition pass1_rel (walked : list nat) (b b' : wbind) : Prop :=
+    shape b b' /\ ((forall x, In x walked -> ~ In x (wb_idx b)) -> b' = b).
 
-  Lemma existsb_hit_same : forall b b1 l, wb_neg b1 = wb_neg b -> wb_states b1 = wb_states b ->
-    existsb (hit b1) l = existsb (hit b) l.
+  Lemma pass1_loop : forall rest p s,
+    NoDup (map wb_id (ss_wb s)) ->
+    (forall b, In b (ss_wb s) -> pok (ss_closed s) (fh p) b) ->
+    let s' := fold_left (touch_state act) rest s in
+    wsame s s' /\ ss_closed s' = ss_closed s /\
+    (forall b', In b' (ss_wb s') -> pok (ss_closed s) (fh (p ++ rest)) b') /\
+    Forall2 (pass1_rel rest) (ss_wb s) (ss_wb s').
   Proof.
-    intros b b1 l Hn Hs. induction l as [|n r IH]; simpl; [reflexivity|].
-    rewrite IH. unfold hit. rewrite Hn, Hs. reflexivity.
-  Qed.
-
-  Definition walk_step (st : sst) (x : nat) : sst :=
-    let ids := flat_map (fun b => repeat (wb_id b) (count_in x (wb_idx b))) (ss_wb st) in
-    fold_left (fun st id => visit_wb st id x (mem x act)) ids st.
-
-  Lemma outer_loop : forall rest p s,
-    all = p ++ rest -> ss_done s = [] -> NoDup (map wb_id (ss_wb s)) ->
-    (forall b, In b (ss_wb s) -> wb_ok (ss_closed s) (fh p) b) ->
-    let s' := fold_left walk_step rest s in
-    wsame s s' /\ map wb_id (ss_wb s') = map wb_id (ss_wb s) /\
-    (forall b', In b' (ss_wb s') -> wb_ok (ss_closed s') (fh all) b') /\
-    (forall i, mem i (ss_closed s) = true -> mem i (ss_closed s') = true) /\
-    (forall i, mem i (ss_closed s') = true ->
-               mem i (ss_closed s) = true \/ In i (map wb_id (ss_wb s))) /\
-    (forall b, In b (ss_wb s) -> exists b', In b' (ss_wb s') /\
-       wb_id b' = wb_id b /\ wb_neg b' = wb_neg b /\ wb_states b' = wb_states b /\
-       (dead (ss_closed s) b -> dead (ss_closed s') b') /\
-       (live (ss_closed s) (fh p) b ->
-          (live (ss_closed s') (fh all) b' /\ existsb (hit b) (seq (S (length p)) (length rest)) = false)
-          \/ (dead (ss_closed s') b' /\ existsb (hit b) (seq (S (length p)) (length rest)) = true))).
-  Proof.
-    induction rest as [|y rest IH]; intros p s Hall Hdone Hnd Hok; cbn zeta; simpl fold_left.
-    - rewrite app_nil_r in Hall. split; [apply wsame_refl|]. split; [reflexivity|]. split.
-      { intros b' Hb'. rewrite Hall. apply Hok. exact Hb'. }
-      split; [tauto|]. split; [tauto|].
-      intros b Hb. exists b. split; [exact Hb|]. do 3 (split; [reflexivity|]).
-      split; [tauto|]. intros Hl. left. split; [rewrite Hall; exact Hl | reflexivity].
+    induction rest as [|y rest IH]; intros p s Hnd Hok; cbn zeta; simpl fold_left.
+    - rewrite app_nil_r. split; [apply wsame_refl|]. split; [reflexivity|]. split; [exact Hok|].
+      assert (G : forall l : list wbind, Forall2 (pass1_rel []) l l).
+      { induction l; constructor; auto. split; [apply shape_refl | reflexivity]. }
+      apply G.
     - set (v := mem y act). set (fp := fh p).
       set (ids := map wb_id (filter (fun b => mem y (wb_idx b)) (ss_wb s))).
-      assert (Hsnap : walk_step s y = fold_left (fun st id => visit_wb st id y v) ids s).
-      { unfold walk_step. rewrite snapshot_eq; [reflexivity|].
-        intros b Hb. eapply wb_ok_NoDup_idx. apply Hok. exact Hb. }
+      assert (Hsnap : touch_state act s y = fold_left (fun st id => touch_wb st id y v) ids s).
+      { unfold touch_state, when_ids. rewrite snapshot_eq; [reflexivity|].
+        intros b Hb. eapply pok_NoDup_idx. apply Hok. exact Hb. }
       rewrite Hsnap.
       assert (Hfq : forall z, upd fp y v z = fh (p ++ [y]) z).
       { intros z. symmetry. apply hybrid_snoc. }
-      destruct (inner_loop y v fp ids s Hdone (NoDup_map_filter _ _ Hnd) Hnd)
-        as [Hsame1 [Hids1 [Hok1 [Hmono1 [Hcl1 Htr1]]]]].
+      destruct (touch_loop y v fp ids s (NoDup_map_filter _ _ Hnd) Hnd) as [Hsame1 [Hcl1 [Hok1 Hrel1]]].
       { intros b Hb. unfold ids. rewrite (mem_map_filter _ _ _ Hnd Hb).
-        destruct (Hok b Hb) as [Hd|Hl].
+        destruct (Hok b Hb) as [Hd|Hp].
         - destruct Hd as [Hd1 Hd2]. rewrite Hd1. cbn. left. split; assumption.
-        - pose proof Hl as [A _]. rewrite A. destruct (mem y (wb_states b)) eqn:E.
-          + apply mem_In in E. split; [exact Hl | exact E].
-          + right. eapply live_ext; [|exact Hl]. intros x Hx. unfold upd.
+        - pose proof Hp as [A _]. rewrite A. destruct (mem y (wb_states b)) eqn:E.
+          + apply mem_In in E. split; [exact Hp | exact E].
+          + right. eapply pre_ext; [|exact Hp]. intros x Hx. unfold upd.
             destruct (Nat.eqb x y) eqn:Exy; [|reflexivity].
             apply Nat.eqb_eq in Exy. subst x. apply mem_false in E. contradiction. }
-      set (s1 := fold_left (fun st id => visit_wb st id y v) ids s) in *.
-      destruct (IH (p ++ [y]) s1) as [Hsame [Hids' [Hok' [Hmono' [Hcl' Htr']]]]].
-      + rewrite <- app_assoc. exact Hall.
-      + destruct Hsame1 as [_ [_ [_ [_ [_ [_ [_ [_ [_ [Hd _]]]]]]]]]]. congruence.
+      set (s1 := fold_left (fun st id => touch_wb st id y v) ids s) in *.
+      assert (Hids1 : map wb_id (ss_wb s1) = map wb_id (ss_wb s)).
+      { apply Forall2_ids. eapply Forall2_impl_In; [|exact Hrel1].
+        intros x z _ R. unfold touched_rel in R. destruct (mem (wb_id x) ids); [apply R | subst; reflexivity]. }
+      destruct (IH (p ++ [y]) s1) as [Hsame [Hcl [Hok' Hrel']]].
       + rewrite Hids1. exact Hnd.
-      + intros b Hb. eapply wb_ok_ext; [|apply Hok1; exact Hb]. intros x _. apply Hfq.
-      + split; [eapply wsame_trans; eassumption|]. split; [congruence|]. split; [exact Hok'|].
-        split; [intros i Hi; apply Hmono'; apply Hmono1; exact Hi|].
-        split.
-        { intros i Hi. destruct (Hcl' i Hi) as [Hc|Hc]; [|right; congruence].
-          destruct (Hcl1 i Hc) as [Hc1|Hc1]; [tauto|]. right. unfold ids in Hc1.
-          apply in_map_iff in Hc1. destruct Hc1 as [x [Hx Hi1]]. apply filter_In in Hi1.
-          rewrite <- Hx. apply in_map. tauto. }
-        intros b Hb. destruct (Htr1 b Hb) as [b1 [Hb1 [Hi1 [Hn1 [Hs1 Hst1]]]]].
-        destruct (Htr' b1 Hb1) as [b' [Hb' [Hi' [Hn' [Hs' [Hdd' Hll']]]]]].
-        exists b'. split; [exact Hb'|]. split; [congruence|]. split; [congruence|].
-        split; [congruence|].
-        assert (Hlen : length (p ++ [y]) = S (length p)) by (rewrite app_length; simpl; lia).
-        assert (Hnth : nth (S (length p) - 1) all 0 = y).
-        { rewrite Hall. replace (S (length p) - 1) with (length p) by lia.
-          rewrite app_nth2 by lia. rewrite Nat.sub_diag. reflexivity. }
-        assert (Hfirst : firstn (S (length p)) all = p ++ [y]).
-        { rewrite Hall. replace (S (length p)) with (length p + 1) by lia.
-          rewrite firstn_app_2. reflexivity. }
-        assert (Hhit : hit b (S (length p)) =
-                       mem y (wb_states b) && full (wb_neg b) (upd fp y v) (wb_states b)).
-        { unfold hit. rewrite Hnth, Hfirst. f_equal. apply full_ext. intros x _. symmetry. apply Hfq. }
-        unfold ids in Hst1. rewrite (mem_map_filter _ _ _ Hnd Hb) in Hst1.
-        split.
-        * (* dead stays dead *)
-          intros Hd. pose proof Hd as [Hd1 _]. rewrite Hd1 in Hst1. cbn in Hst1. subst b1.
-          apply Hdd'. eapply dead_cl; [exact Hd | exact Hmono1].
-        * intros Hl. pose proof Hl as [A _]. rewrite A in Hst1.
-          simpl seq. simpl existsb. rewrite Hhit. rewrite Hlen in Hll'.
-          destruct (mem y (wb_states b)) eqn:E; cbn [andb orb].
-          -- (* visited at this position *)
-             destruct Hst1 as [[Hl1 Hf]|[Hd1 Hf]]; rewrite Hf; cbn [orb].
-             ++ assert (Hl1' : live (ss_closed s1) (fh (p ++ [y])) b1).
-                { eapply live_ext; [|exact Hl1]. intros x _. apply Hfq. }
-                destruct (Hll' Hl1') as [[Hl2 He]|[Hd2 He]].
-                ** left. split; [exact Hl2|]. rewrite <- He. symmetry. apply existsb_hit_same; assumption.
-                ** right. split; [exact Hd2|]. rewrite <- He. symmetry. apply existsb_hit_same; assumption.
-             ++ right. split; [apply Hdd'; exact Hd1 | reflexivity].
-          -- (* not one of its states *)
-             subst b1.
-             assert (Hl1' : live (ss_closed s1) (fh (p ++ [y])) b).
-             { eapply live_ext with (f := fp).
-               - intros x Hx. rewrite <- Hfq. unfold upd. destruct (Nat.eqb x y) eqn:Exy; [|reflexivity].
-                 apply Nat.eqb_eq in Exy. subst x. apply mem_false in E. contradiction.
-               - eapply live_cl; [exact Hl|]. destruct (mem (wb_id b) (ss_closed s1)) eqn:Em; [|reflexivity].
-                 destruct (Hcl1 _ Em) as [Hc|Hc].
-                 + destruct Hl as [_ [_ [_ [D _]]]]. congruence.
-                 + exfalso. apply mem_In in Hc. unfold ids in Hc.
-                   rewrite (mem_map_filter _ _ _ Hnd Hb), A, E in Hc. discriminate. }
-             destruct (Hll' Hl1') as [[Hl2 He]|[Hd2 He]].
-             ++ left. split; [exact Hl2|]. rewrite <- He. symmetry. apply existsb_hit_same; assumption.
-             ++ right. split; [exact Hd2|]. rewrite <- He. symmetry. apply existsb_hit_same; assumption.
+      + rewrite Hcl1. intros b Hb. eapply pok_ext; [|apply Hok1; exact Hb]. intros x _. apply Hfq.
+      + split; [eapply wsame_trans; eassumption|]. split; [congruence|]. split.
+        { rewrite <- app_assoc in Hok'. rewrite Hcl1 in Hok'. exact Hok'. }
+        assert (Hrel1' : Forall2 (fun x z => shape x z /\ (~ In y (wb_idx x) -> z = x)) (ss_wb s) (ss_wb s1)).
+        { eapply Forall2_impl_In; [|exact Hrel1]. intros x z Hx R. unfold touched_rel in R.
+          unfold ids in R. rewrite (mem_map_filter _ _ _ Hnd Hx) in R.
+          destruct (mem y (wb_idx x)) eqn:Em.
+          - split; [exact R|]. intros Hn. apply mem_In in Em. contradiction.
+          - subst z. split; [apply shape_refl | reflexivity]. }
+        eapply Forall2_trans'; [|exact Hrel1'|exact Hrel'].
+        intros x z w [S1 U1] [S2 U2]. split.
+        * destruct S1 as [A1 [B1 [C1 D1]]], S2 as [A2 [B2 [C2 D2]]]. unfold shape. repeat split; congruence.
+        * intros Hun. assert (Hz : z = x) by (apply U1; apply Hun; left; reflexivity).
+          subst z. apply U2. intros x0 Hx0. apply Hun. right. exact Hx0.
   Qed.
-End Outer.
+End Pass1.
+
+
+(* ---- pass 2: completion of the touched bindings *)
+
+Lemma pre_cl : forall cl cl' f b, pre cl f b -> mem (wb_id b) cl' = false -> pre cl' f b.
+Proof. intros cl cl' f b [A [B [C [D E]]]] H. repeat split; auto; apply E. Qed.
+
+Lemma complete_wb_pre : forall s h1 h2 b f,
+  ss_done s = [] -> ss_wb s = h1 ++ b :: h2 ->
+  (forall y, In y h1 -> wb_id y <> wb_id b) -> (forall y, In y h2 -> wb_id y <> wb_id b) ->
+  pre (ss_closed s) f b ->
+  (full (wb_neg b) f (wb_states b) = false /\ complete_wb s (wb_id b) = s /\ live (ss_closed s) f b)
+  \/ (full (wb_neg b) f (wb_states b) = true /\
+      exists wc, complete_wb s (wb_id b)
+                 = set_when s (h1 ++ wb_set_idx b [] :: h2) wc (close (ss_closed s) (wb_id b))).
+Proof.
+  intros s h1 h2 b f Hdone Hwb H1 H2 Hpre. pose proof Hpre as [A [B [C [D [E [F G]]]]]].
+  unfold complete_wb. rewrite Hwb, (find_wb_mid h1 h2 b H1).
+  assert (Hexp : ctx_done s (wb_ctx b) = false).
+  { unfold ctx_done. destruct (wb_ctx b); [|reflexivity]. rewrite Hdone. reflexivity. }
+  rewrite Hexp. cbn [negb]. rewrite andb_true_r.
+  destruct (wb_matched b <? Z.of_nat (wb_total b))%Z eqn:Elt.
+  - left. apply Z.ltb_lt in Elt. split; [|split; [reflexivity|]].
+    + apply cnt_lt_full. rewrite G, E in Elt. lia.
+    + apply live_pre. split; assumption.
+  - right. apply Z.ltb_ge in Elt. split.
+    + apply cnt_full. pose proof (cnt_le (wb_neg b) f (wb_states b)). rewrite G, E in Elt. lia.
+    + pose proof (gc_when_split h1 h2 b (ss_wctx s) true H1 H2 B A) as Hgc.
+      destruct (gc_when (h1 ++ b :: h2) (ss_wctx s) b true) as [hh wc]. cbn [fst] in Hgc. subst hh.
+      exists wc. reflexivity.
+Qed.
+
+Section Pass2.
+  Variable (f : nat -> bool).
+
+  Definition status (cl : list nat) (b b' : wbind) (visited : bool) : Prop :=
+    wb_id b' = wb_id b /\ wb_neg b' = wb_neg b /\ wb_states b' = wb_states b /\
+    (if visited
+     then (live cl f b' /\ full (wb_neg b) f (wb_states b) = false)
+          \/ (dead cl b' /\ full (wb_neg b) f (wb_states b) = true)
+     else b' = b).
+
+  Lemma pass2_loop : forall ids s,
+    ss_done s = [] -> NoDup ids -> NoDup (map wb_id (ss_wb s)) ->
+    (forall b, In b (ss_wb s) ->
+       if mem (wb_id b) ids then pre (ss_closed s) f b else wb_ok (ss_closed s) f b) ->
+    let s' := fold_left complete_wb ids s in
+    wsame s s' /\ map wb_id (ss_wb s') = map wb_id (ss_wb s) /\
+    (forall b', In b' (ss_wb s') -> wb_ok (ss_closed s') f b') /\
+    (forall i, mem i (ss_closed s) = true -> mem i (ss_closed s') = true) /\
+    (forall i, mem i (ss_closed s') = true -> mem i (ss_closed s) = true \/ In i ids) /\
+    (forall b, In b (ss_wb s) -> exists b', In b' (ss_wb s') /\
+       status (ss_closed s') b b' (mem (wb_id b) ids)).
+  Proof.
+    induction ids as [|id rest IH]; intros s Hdone Hnd Hids Hall; cbn zeta; simpl fold_left.
+    - split; [apply wsame_refl|]. split; [reflexivity|]. split.
+      { intros b' Hb'. exact (Hall b' Hb'). }
+      split; [tauto|]. split; [tauto|].
+      intros b Hb. exists b. split; [exact Hb|]. unfold status. cbn. tauto.
+    - inversion Hnd as [|? ? Hid Hrest]. subst.
+      destruct (find_wb (ss_wb s) id) as [b0|] eqn:Ef.
+      + destruct (find_wb_split _ _ _ Hids Ef) as [h1 [h2 [Hh [Hb0 [H1 H2]]]]]. subst id.
+        assert (Hin0 : In b0 (ss_wb s)) by (rewrite Hh; apply in_or_app; right; left; reflexivity).
+        pose proof (Hall b0 Hin0) as Hpre. cbn [mem existsb] in Hpre. rewrite Nat.eqb_refl in Hpre.
+        cbn [orb] in Hpre.
+        (* the state after the visit, its heap entry b1 and its closed set *)
+        assert (Hvis : exists b1 s1, s1 = complete_wb s (wb_id b0) /\ wb_id b1 = wb_id b0 /\
+                  wb_neg b1 = wb_neg b0 /\ wb_states b1 = wb_states b0 /\
+                  ss_wb s1 = h1 ++ b1 :: h2 /\ wsame s s1 /\
+                  ((full (wb_neg b0) f (wb_states b0) = false /\ ss_closed s1 = ss_closed s /\
+                    live (ss_closed s) f b1)
+                   \/ (full (wb_neg b0) f (wb_states b0) = true /\
+                       ss_closed s1 = close (ss_closed s) (wb_id b0) /\ dead (ss_closed s1) b1))).
+        { destruct (complete_wb_pre s h1 h2 b0 f Hdone Hh H1 H2 Hpre) as [[Hf [He Hl]]|[Hf [wc He]]].
+          - exists b0, s. rewrite He. do 4 (split; [reflexivity|]). split; [exact Hh|].
+            split; [apply wsame_refl|]. left. tauto.
+          - exists (wb_set_idx b0 []), (complete_wb s (wb_id b0)). rewrite He.
+            split; [reflexivity|]. do 3 (split; [reflexivity|]). psimpl.
+            split; [reflexivity|]. split; [apply wsame_set_when|]. right.
+            split; [exact Hf|]. split; [reflexivity|]. unfold dead. cbn. split; [reflexivity | apply close_self]. }
+        destruct Hvis as [b1 [s1 [Hs1 [Hb1 [Hn1 [Hst1 [Hwb1 [Hsame1 Hres]]]]]]]]. rewrite <- Hs1.
+        assert (Hcl1 : forall i, mem i (ss_closed s1) = true ->
+                                 mem i (ss_closed s) = true \/ i = wb_id b0).
+        { intros i Hi. destruct Hres as [[_ [Hc _]]|[_ [Hc _]]]; rewrite Hc in Hi; [tauto|].
+          apply close_mem in Hi. tauto. }
+        assert (Hmono1 : forall i, mem i (ss_closed s) = true -> mem i (ss_closed s1) = true).
+        { intros i Hi. destruct Hres as [[_ [Hc _]]|[_ [Hc _]]]; rewrite Hc; [exact Hi|].
+          apply close_mono. exact Hi. }
+        assert (Hids1 : map wb_id (ss_wb s1) = map wb_id (ss_wb s)).
+        { rewrite Hwb1, Hh. repeat rewrite map_app. simpl. rewrite Hb1. reflexivity. }
+        assert (Hok1 : wb_ok (ss_closed s1) f b1).
+        { destruct Hres as [[_ [Hc Hl1]]|[_ [_ Hd1]]]; [right; rewrite Hc; exact Hl1 | left; exact Hd1]. }
+        destruct (IH s1) as [Hsame [Hids' [Hok' [Hmono' [Hcl' Htr']]]]].
+        * destruct Hsame1 as [_ [_ [_ [_ [_ [_ [_ [_ [_ [Hd _]]]]]]]]]]. congruence.
+        * exact Hrest.
+        * rewrite Hids1. exact Hids.
+        * intros b Hb. rewrite Hwb1 in Hb. apply in_app_or in Hb.
+          assert (Hother : forall b2, In b2 (ss_wb s) -> wb_id b2 <> wb_id b0 ->
+                    if mem (wb_id b2) rest then pre (ss_closed s1) f b2 else wb_ok (ss_closed s1) f b2).
+          { intros b2 Hb2 Hne. pose proof (Hall b2 Hb2) as Hx. rewrite (mem_cons_ne _ _ _ Hne) in Hx.
+            destruct (mem (wb_id b2) rest).
+            - eapply pre_cl; [exact Hx|].
+              destruct (mem (wb_id b2) (ss_closed s1)) eqn:Em; [|reflexivity].
+              destruct (Hcl1 _ Em) as [Hc|Hc]; [|contradiction].
+              destruct Hx as [_ [_ [_ [D _]]]]. congruence.
+            - eapply wb_ok_cl; [exact Hx | exact Hmono1 |].
+              intros Hm. destruct (Hcl1 _ Hm) as [Hc|Hc]; [exact Hc | contradiction]. }
+          destruct Hb as [Hb|[Hb|Hb]].
+          -- apply Hother; [rewrite Hh; apply in_or_app; left; exact Hb | apply H1; exact Hb].
+          -- subst b. rewrite Hb1. apply mem_false in Hid. rewrite Hid. exact Hok1.
+          -- apply Hother; [rewrite Hh; apply in_or_app; right; right; exact Hb | apply H2; exact Hb].
+        * split; [eapply wsame_trans; eassumption|].
+          split; [congruence|]. split; [exact Hok'|].
+          split; [intros i Hi; apply Hmono'; apply Hmono1; exact Hi|].
+          split.
+          { intros i Hi. destruct (Hcl' i Hi) as [Hc|Hc]; [|right; right; exact Hc].
+            destruct (Hcl1 i Hc) as [Hc1|Hc1]; [tauto | right; left; congruence]. }
+          intros b Hb.
+          destruct (Nat.eq_dec (wb_id b) (wb_id b0)) as [Heq|Hne].
+          -- assert (b = b0).
+             { rewrite Hh in Hb. apply in_app_or in Hb. destruct Hb as [Hb|[Hb|Hb]];
+                 [exfalso; apply (H1 b Hb Heq) | congruence | exfalso; apply (H2 b Hb Heq)]. }
+             subst b.
+             assert (Hin1 : In b1 (ss_wb s1)) by (rewrite Hwb1; apply in_or_app; right; left; reflexivity).
+             destruct (Htr' b1 Hin1) as [b' [Hb' [Hi' [Hn' [Hs' Hst']]]]].
+             rewrite Hb1 in Hst'. apply mem_false in Hid. rewrite Hid in Hst'. subst b'.
+             exists b1. split; [exact Hb'|]. unfold status. cbn [mem existsb]. rewrite Nat.eqb_refl.
+             cbn [orb]. repeat split; auto.
+             destruct Hres as [[Hf [Hc Hl1]]|[Hf [Hc Hd1]]].
+             ++ left. split; [|exact Hf]. eapply live_cl; [exact Hl1|].
+                destruct (mem (wb_id b1) (ss_closed _)) eqn:Em; [|reflexivity].
+                destruct (Hcl' _ Em) as [Hx|Hx].
+                ** rewrite Hc in Hx. destruct Hl1 as [_ [_ [_ [D _]]]]. congruence.
+                ** exfalso. rewrite Hb1 in Hx. apply mem_In in Hx. congruence.
+             ++ right. split; [|exact Hf]. eapply dead_cl; [exact Hd1 | exact Hmono'].
+          -- assert (Hin1 : In b (ss_wb s1)).
+             { rewrite Hwb1. rewrite Hh in Hb. apply in_app_or in Hb. apply in_or_app.
+               destruct Hb as [Hb|[Hb|Hb]]; [tauto | congruence | right; right; exact Hb]. }
+             destruct (Htr' b Hin1) as [b' [Hb' Hst']].
+             exists b'. split; [exact Hb'|]. rewrite (mem_cons_ne _ _ _ Hne). exact Hst'.
+      + assert (Hv : complete_wb s id = s) by (unfold complete_wb; rewrite Ef; reflexivity).
+        rewrite Hv.
+        destruct (IH s Hdone Hrest Hids) as [Hsame [Hids' [Hok' [Hmono' [Hcl' Htr']]]]].
+        * intros b Hb. pose proof (Hall b Hb) as Hx.
+          rewrite (mem_cons_ne _ _ _ (find_wb_None _ _ Ef b Hb)) in Hx. exact Hx.
+        * split; [exact Hsame|]. split; [exact Hids'|]. split; [exact Hok'|]. split; [exact Hmono'|].
+          split; [intros i Hi; destruct (Hcl' i Hi); [tauto | right; right; assumption]|].
+          intros b Hb. destruct (Htr' b Hb) as [b' [Hb' Hst']]. exists b'. split; [exact Hb'|].
+          rewrite (mem_cons_ne _ _ _ (find_wb_None _ _ Ef b Hb)). exact Hst'.
+  Qed.
+End Pass2.
 
 (* ------------------------------------------------------------ the invariant *)
 
@@ -1091,10 +1198,6 @@ Proof.
   rewrite H. simpl. apply IH. exact H.
 Qed.
 
-Lemma process_when_walk : forall s act deact, ss_done s = [] ->
-  process_when s act deact = fold_left (walk_step act) (act ++ deact) s.
-Proof. intros s act deact H. unfold process_when. rewrite process_when_ctx_id by exact H. reflexivity. Qed.
-
 Lemma hybrid_all : forall a act deact x,
   hybrid a act (act ++ deact) x = act_upd a (EProcess act deact [] [] 0%N) x.
 Proof.
@@ -1113,7 +1216,41 @@ Proof.
   unfold quiet. rewrite J, K, L, G, H. tauto.
 Qed.
 
-(* ProcessWhen keeps the invariant, for the activity it was told *)
+Lemma live_not_full_early : forall cl f b, live cl f b -> full (wb_neg b) f (wb_states b) = false.
+Proof.
+  intros cl f b [_ [_ [_ [_ [E [_ [G I]]]]]]]. apply cnt_lt_full. rewrite G, E in I. lia.
+Qed.
+
+Lemma mem_uniq : forall x l, mem x (uniq l) = mem x l.
+Proof.
+  intros x l. destruct (mem x l) eqn:E.
+  - apply mem_In. apply (proj2 (uniq_In l x)). apply (proj1 (mem_In x l)). exact E.
+  - apply mem_false. intros H. apply (proj1 (uniq_In l x)) in H. apply (proj2 (mem_In x l)) in H. congruence.
+Qed.
+
+Lemma touched_mem : forall h all b,
+  NoDup (map wb_id h) -> (forall b, In b h -> NoDup (wb_idx b)) -> In b h ->
+  mem (wb_id b) (uniq (flat_map (when_ids h) all)) = existsb (fun x => mem x (wb_idx b)) all.
+Proof.
+  intros h all b Hnd Hidx Hb. rewrite mem_uniq. induction all as [|x r IH]; simpl; [reflexivity|].
+  rewrite mem_app, IH. f_equal. unfold when_ids. rewrite (snapshot_eq x h Hidx).
+  apply mem_map_filter; assumption.
+Qed.
+
+Lemma when_ids_incl : forall h x i, In i (when_ids h x) -> In i (map wb_id h).
+Proof.
+  intros h x i H. unfold when_ids in H. apply in_flat_map in H. destruct H as [b [Hb Hi]].
+  apply repeat_spec in Hi. subst i. apply in_map. exact Hb.
+Qed.
+
+Lemma hybrid_nil : forall a act x, hybrid a act [] x = a x.
+Proof. reflexivity. Qed.
+
+Lemma hybrid_notin : forall a act all x, ~ In x all -> hybrid a act all x = a x.
+Proof. intros a act all x H. unfold hybrid. apply mem_false in H. rewrite H. reflexivity. Qed.
+
+(* ProcessWhen keeps the invariant, for the activity it was told; a binding
+   is completed exactly when all its states are (in)active afterwards *)
 Lemma Inv_process_when : forall a s act deact,
   Inv a s ->
   let a' := act_upd a (EProcess act deact [] [] 0%N) in
@@ -1124,33 +1261,90 @@ Lemma Inv_process_when : forall a s act deact,
      wb_id b' = wb_id b /\ wb_neg b' = wb_neg b /\ wb_states b' = wb_states b /\
      (dead (ss_closed s) b -> dead (ss_closed s') b') /\
      (live (ss_closed s) a b ->
-        (live (ss_closed s') a' b' /\ existsb (hit a act deact b) (seq 1 (length (act ++ deact))) = false)
-        \/ (dead (ss_closed s') b' /\ existsb (hit a act deact b) (seq 1 (length (act ++ deact))) = true))).
+        (live (ss_closed s') a' b' /\ full (wb_neg b) a' (wb_states b) = false)
+        \/ (dead (ss_closed s') b' /\ full (wb_neg b) a' (wb_states b) = true))).
 Proof.
   intros a s act deact [Hq [Hnd [Hok [Hsep [Hb Hc]]]]] a' s'.
   assert (Hdone : ss_done s = []) by apply Hq.
-  subst s'. rewrite (process_when_walk s act deact Hdone).
-  destruct (outer_loop a act deact (act ++ deact) [] s eq_refl Hdone Hnd)
-    as [Hsame [Hids [Hok' [Hmono [Hcl Htr]]]]].
-  { intros b Hin. eapply wb_ok_ext; [|apply Hok; exact Hin]. intros x _. reflexivity. }
-  set (s' := fold_left (walk_step act) (act ++ deact) s) in *.
-  assert (Hext : forall cl b, wb_ok cl (hybrid a act (act ++ deact)) b -> wb_ok cl a' b).
-  { intros cl b H. eapply wb_ok_ext; [|exact H]. intros x _. apply hybrid_all. }
+  subst s'. unfold process_when. rewrite (process_when_ctx_id s Hdone). cbv zeta.
+  set (all := act ++ deact). set (f := hybrid a act all).
+  assert (Hfa : forall x, f x = a' x) by (intros x; apply hybrid_all).
+  assert (Hidx : forall b, In b (ss_wb s) -> NoDup (wb_idx b)).
+  { intros b Hin. eapply wb_ok_NoDup_idx. apply Hok. exact Hin. }
+  (* pass 1 *)
+  destruct (pass1_loop a act all [] s Hnd) as [Hsame1 [Hcl1 [Hok1 Hrel1]]].
+  { intros b Hin. apply wb_ok_pok. apply Hok. exact Hin. }
+  cbn [app] in Hok1. fold f in Hok1.
+  set (s1 := fold_left (touch_state act) all s) in *.
+  assert (Hids1 : map wb_id (ss_wb s1) = map wb_id (ss_wb s)).
+  { apply Forall2_ids. eapply Forall2_impl_In; [|exact Hrel1]. intros x z _ [R _]. apply R. }
+  set (touched := uniq (flat_map (when_ids (ss_wb s)) all)).
+  assert (Htm : forall b b1, In b (ss_wb s) -> pass1_rel all b b1 ->
+            mem (wb_id b1) touched = existsb (fun x => mem x (wb_idx b)) all).
+  { intros b b1 Hin [[R _] _]. rewrite R. apply touched_mem; assumption. }
+  assert (Hunt : forall b, existsb (fun x => mem x (wb_idx b)) all = false ->
+                 forall x, In x all -> ~ In x (wb_idx b)).
+  { intros b E x Hx Hi. assert (existsb (fun x => mem x (wb_idx b)) all = true); [|congruence].
+    apply existsb_exists. exists x. split; [exact Hx | apply mem_In; exact Hi]. }
+  (* pass 2 *)
+  destruct (pass2_loop f touched s1) as [Hsame2 [Hids2 [Hok2 [Hmono2 [Hcl2 Htr2]]]]].
+  { destruct Hsame1 as [_ [_ [_ [_ [_ [_ [_ [_ [_ [Hd _]]]]]]]]]]. congruence. }
+  { apply uniq_NoDup. }
+  { rewrite Hids1. exact Hnd. }
+  { intros b1 Hb1. destruct (Forall2_In_r _ _ _ _ Hrel1 Hb1) as [b [Hin Hr]].
+    rewrite (Htm b b1 Hin Hr), Hcl1.
+    destruct (existsb (fun x => mem x (wb_idx b)) all) eqn:E.
+    - destruct (Hok1 b1 Hb1) as [[Hd _]|Hp]; [|exact Hp]. exfalso.
+      destruct Hr as [[_ [_ [_ R]]] _]. rewrite R in Hd. rewrite Hd in E.
+      clear -E. induction all; simpl in E; [discriminate | auto].
+    - destruct Hr as [[_ [_ [Rs Ri]]] Hu]. rewrite (Hu (Hunt b E)).
+      destruct (Hok b Hin) as [Hd|Hl]; [left; exact Hd|]. right.
+      eapply live_ext; [|exact Hl]. intros x Hx.
+      symmetry. apply hybrid_notin. intros Hxa. apply (Hunt b E x Hxa).
+      destruct Hl as [A _]. rewrite A. exact Hx. }
+  set (s2 := fold_left complete_wb touched s1) in *.
+  assert (Hsame : wsame s s2) by (eapply wsame_trans; eassumption).
+  assert (Hmono : forall i, is_closed s i = true -> is_closed s2 i = true).
+  { intros i Hi. unfold is_closed in *. apply Hmono2. rewrite Hcl1. exact Hi. }
+  assert (Hclos : forall i, mem i (ss_closed s2) = true ->
+                  mem i (ss_closed s) = true \/ In i (map wb_id (ss_wb s))).
+  { intros i Hi. destruct (Hcl2 i Hi) as [H|H]; [left; rewrite <- Hcl1; exact H|]. right.
+    unfold touched in H. apply (proj1 (uniq_In _ _)) in H. apply in_flat_map in H. destruct H as [x [_ Hx]].
+    eapply when_ids_incl. exact Hx. }
   split; [|split; [exact Hsame|split; [exact Hmono|]]].
-  - split; [eapply wsame_quiet; eassumption|]. rewrite Hids.
+  - split; [eapply wsame_quiet; eassumption|]. rewrite Hids2, Hids1.
     split; [exact Hnd|]. split; [|split; [|split]].
-    + intros b Hin. apply Hext. apply Hok'. exact Hin.
+    + intros b Hin. eapply wb_ok_ext; [|apply Hok2; exact Hin]. intros x _. apply Hfa.
     + intros i Hi. rewrite (wsame_oids _ _ Hsame). destruct Hsame as [Hn _]. rewrite Hn. apply Hsep. exact Hi.
     + intros i Hi. rewrite (wsame_oids _ _ Hsame) in Hi. destruct Hsame as [Hn _]. rewrite Hn. apply Hb. exact Hi.
-    + intros i Hi. destruct Hsame as [Hn _]. rewrite Hn. destruct (Hcl i Hi) as [H|H]; [apply Hc; exact H|].
+    + intros i Hi. destruct Hsame as [Hn _]. rewrite Hn. destruct (Hclos i Hi) as [H|H]; [apply Hc; exact H|].
       apply Hsep. exact H.
-  - intros b Hin. destruct (Htr b Hin) as [b' [Hb' [Hi [Hn [Hs [Hd Hl]]]]]].
-    exists b'. split; [exact Hb'|]. do 3 (split; [assumption|]). split; [exact Hd|].
-    intros Hlive. simpl length in Hl.
-    destruct Hl as [[Hl1 He]|[Hd1 He]].
-    + eapply live_ext; [|exact Hlive]. reflexivity.
-    + left. split; [|exact He]. eapply live_ext; [|exact Hl1]. intros x _. apply hybrid_all.
-    + right. split; assumption.
+  - intros b Hin. destruct (Forall2_In_l _ _ _ _ Hrel1 Hin) as [b1 [Hb1 Hr]].
+    destruct (Htr2 b1 Hb1) as [b' [Hb' [Hi [Hn [Hs Hst]]]]].
+    pose proof Hr as [[R1 [R2 [R3 R4]]] Hu].
+    exists b'. split; [exact Hb'|]. split; [congruence|]. split; [congruence|]. split; [congruence|].
+    rewrite (Htm b b1 Hin Hr) in Hst. split.
+    + intros Hd. pose proof Hd as [Hd1 _]. rewrite Hd1 in Hst.
+      assert (E : existsb (fun x : nat => mem x []) all = false) by (clear; induction all; simpl; auto).
+      rewrite E in Hst. subst b'. rewrite Hd1 in Hu. rewrite (Hu (fun x _ H => H)).
+      eapply dead_cl; [exact Hd|]. intros i0 Hi0. apply Hmono2. rewrite Hcl1. exact Hi0.
+    + intros Hl. destruct (existsb (fun x => mem x (wb_idx b)) all) eqn:E.
+      * rewrite R2, R3 in Hst. destruct Hst as [[Hl2 Hf]|[Hd2 Hf]].
+        -- left. split; [eapply live_ext; [|exact Hl2]; intros x _; apply Hfa|].
+           rewrite <- Hf. apply full_ext. intros x _. symmetry. apply Hfa.
+        -- right. split; [exact Hd2|]. rewrite <- Hf. apply full_ext. intros x _. symmetry. apply Hfa.
+      * subst b'. rewrite (Hu (Hunt b E)).
+        assert (Hext : forall x, In x (wb_states b) -> a x = a' x).
+        { intros x Hx. rewrite <- Hfa. symmetry. apply hybrid_notin. intros Hxa.
+          apply (Hunt b E x Hxa). destruct Hl as [A _]. rewrite A. exact Hx. }
+        assert (Hl' : live (ss_closed s2) a' b).
+        { eapply live_ext; [exact Hext|]. eapply live_cl; [exact Hl|].
+          destruct (mem (wb_id b) (ss_closed s2)) eqn:Em; [|reflexivity].
+          destruct (Hcl2 _ Em) as [H|H].
+          - rewrite Hcl1 in H. destruct Hl as [_ [_ [_ [D _]]]]. congruence.
+          - exfalso. apply mem_In in H. fold touched in H.
+            rewrite <- R1 in H. rewrite (Htm b b1 Hin Hr) in H. congruence. }
+        left. split; [exact Hl'|]. eapply live_not_full_early. exact Hl'.
 Qed.
 
 (* ------------------------------------------------------------ API calls *)
@@ -1482,14 +1676,6 @@ Lemma existsb_ext' : forall (A : Type) (f g : A -> bool) l,
   (forall x, f x = g x) -> existsb f l = existsb g l.
 Proof. intros A f g l H. induction l as [|x r IH]; simpl; [reflexivity|]. rewrite H, IH. reflexivity. Qed.
 
-Lemma walk_full_hit : forall a act deact b,
-  walk_full (wb_neg b) (wb_states b) a act deact
-  = existsb (hit a act deact b) (seq 1 (length (act ++ deact))).
-Proof.
-  intros a act deact b. unfold walk_full. apply existsb_ext'. intros n. unfold hit.
-  rewrite full_told. reflexivity.
-Qed.
-
 Lemma live_of_ok : forall cl f b, wb_ok cl f b -> wb_idx b <> [] -> live cl f b.
 Proof. intros cl f b [[A _]|H] Hn; [contradiction | exact H]. Qed.
 
@@ -1504,12 +1690,10 @@ Qed.
 Lemma track : forall post a s b,
   Inv a s -> In b (ss_wb s) -> live (ss_closed s) a b ->
   forallb plain_ev post = true -> coherent a post ->
-  is_closed (run s post) (wb_id b) = walked_later (wb_neg b) (wb_states b) a post /\
-  (is_closed (run s post) (wb_id b) = false ->
-   held_later (told_cond (wb_neg b) (wb_states b)) a post = false).
+  is_closed (run s post) (wb_id b) = held_later (told_cond (wb_neg b) (wb_states b)) a post.
 Proof.
   induction post as [|e r IH]; intros a s b HI Hin Hl Hp Hc.
-  - cbn. destruct Hl as [_ [_ [_ [D _]]]]. unfold is_closed. rewrite D. tauto.
+  - cbn. destruct Hl as [_ [_ [_ [D _]]]]. unfold is_closed. exact D.
   - cbn [forallb] in Hp. apply andb_true_iff in Hp. destruct Hp as [Hp1 Hp2].
     apply coherent_cons in Hc. destruct Hc as [Hc1 Hc2].
     destruct (step_Inv a s e HI Hp1 Hc1) as [A [B C]].
@@ -1517,30 +1701,27 @@ Proof.
     destruct e as [k v o|ac de|ac de bf lv qt| |v p| |qt0].
     3: {
       (* processSubscriptions *)
-      cbn [walked_later held_later]. set (a' := act_upd a (EProcess ac de bf lv qt)) in *.
+      cbn [held_later]. set (a' := act_upd a (EProcess ac de bf lv qt)) in *.
       destruct (Inv_process_when a s ac de HI) as [_ [_ [_ Htr]]].
       destruct (Htr b Hin) as [b' [Hb' [Hi [Hn [Hs [_ Hst]]]]]].
       destruct (process_subs_Inv a s ac de bf lv qt HI) as [_ [Hwb [_ [Hm1 _]]]].
       assert (Hstep : step s (EProcess ac de bf lv qt) = process_subs s ac de bf lv qt).
       { unfold step. rewrite (quiet_crashed a s HI). reflexivity. }
       rewrite Hstep in *.
-      rewrite walk_full_hit. destruct (Hst Hl) as [[Hl1 He]|[Hd1 He]]; rewrite He; cbn [orb].
+      rewrite <- full_told.
+      change (act_upd a (EProcess ac de [] [] 0%N)) with a' in Hst.
+      destruct (Hst Hl) as [[Hl1 He]|[Hd1 He]]; rewrite He; cbn [orb].
       - (* still open *)
         assert (Hin' : In b' (ss_wb (process_subs s ac de bf lv qt))) by (rewrite Hwb; exact Hb').
         assert (Hl' : live (ss_closed (process_subs s ac de bf lv qt)) a' b').
         { apply live_of_ok; [apply A; exact Hin' | eapply live_idx; exact Hl1]. }
-        destruct (IH a' _ b' A Hin' Hl' Hp2 Hc2) as [I1 I2].
-        pose proof (live_not_full _ _ _ Hl') as Hnf.
-        rewrite Hi, Hn, Hs in I1, I2. rewrite Hn, Hs in Hnf.
-        split; [exact I1|]. intros Hcl.
-        rewrite <- full_told. rewrite Hnf. cbn [orb]. apply I2. exact Hcl.
+        pose proof (IH a' _ b' A Hin' Hl' Hp2 Hc2) as I1.
+        rewrite Hi, Hn, Hs in I1. exact I1.
       - (* closed by this transition *)
-        assert (Hcl : is_closed (run (process_subs s ac de bf lv qt) r) (wb_id b) = true).
-        { destruct (run_Inv r a' _ A Hp2 Hc2) as [_ Hm]. apply Hm. apply Hm1.
-          destruct Hd1 as [_ Hd1]. rewrite <- Hi. exact Hd1. }
-        rewrite Hcl. split; [reflexivity | discriminate].
+        destruct (run_Inv r a' _ A Hp2 Hc2) as [_ Hm]. apply Hm. apply Hm1.
+        destruct Hd1 as [_ Hd1]. rewrite <- Hi. exact Hd1.
     }
-    all: cbn [walked_later held_later act_upd orb] in *; destruct C as [C _];
+    all: cbn [held_later act_upd orb] in *; destruct C as [C _];
       apply IH; try assumption;
       [ apply C; exact Hin
       | apply live_of_ok; [apply A; apply C; exact Hin | eapply live_idx; exact Hl] ].
@@ -1586,21 +1767,6 @@ Lemma told_cond_seteq : forall neg l l' a, (forall x, In x l <-> In x l') ->
   told_cond neg l a = told_cond neg l' a.
 Proof. intros. unfold told_cond. apply forallb_seteq. assumption. Qed.
 
-Lemma walk_full_seteq : forall neg l l' a act deact, (forall x, In x l <-> In x l') ->
-  walk_full neg l a act deact = walk_full neg l' a act deact.
-Proof.
-  intros neg l l' a act deact H. unfold walk_full. apply existsb_ext'. intros n.
-  rewrite (mem_seteq _ l l' H). f_equal. apply forallb_seteq. exact H.
-Qed.
-
-Lemma walked_later_seteq : forall neg l l' post a, (forall x, In x l <-> In x l') ->
-  walked_later neg l a post = walked_later neg l' a post.
-Proof.
-  intros neg l l'. induction post as [|e r IH]; intros a H; [reflexivity|].
-  cbn [walked_later]. rewrite (IH _ H). destruct e; try reflexivity.
-  rewrite (walk_full_seteq neg l l' a act deact H). reflexivity.
-Qed.
-
 Lemma held_later_ext : forall (c c' : (nat -> bool) -> bool) post a,
   (forall g, c g = c' g) -> held_later c a post = held_later c' a post.
 Proof.
@@ -1642,14 +1808,13 @@ Proof.
     intros x. rewrite (set_eqb_In _ _ Hs x). apply uniq_In.
 Qed.
 
-(* closed <-> the condition held on the told activity when subscribing, or
-   some later processed transition marked all its states at once during
-   ProcessWhen's walk *)
+(* closed <-> the condition held on the told activity when subscribing or at
+   the end of some later processed transition (any number of states) *)
 Theorem when_iff_lemma : forall a0 pre k v neg sts ctx post,
   let es := pre ++ EOp k v (when_op neg sts ctx) :: post in
   forallb plain_ev es = true -> coherent a0 es -> fresh_k k post -> known v sts = true ->
   let a1 := acts a0 pre in
-  closed_of (run init_sst es) k = told_cond neg sts a1 || walked_later neg sts a1 post.
+  closed_of (run init_sst es) k = told_cond neg sts a1 || held_later (told_cond neg sts) a1 post.
 Proof.
   intros a0 pre k v neg sts ctx post es Hp Hc Hf Hk a1.
   subst es. rewrite forallb_app in Hp. apply andb_true_iff in Hp. destruct Hp as [Hp1 Hp2].
@@ -1668,102 +1833,11 @@ Proof.
   - (* the shared closed channel *)
     destruct (run_Inv post a1 s2 HI2 Hp2 Hc2) as [_ Hm]. apply Hm.
     destruct (step_Inv a1 s1 _ HI1 Hpe Hce) as [_ [Hm2 _]]. apply Hm2. apply Hm1. reflexivity.
-  - destruct (track post a1 s2 b HI2 Hb Hl Hp2 Hc2) as [T _]. rewrite T, Hn.
-    apply walked_later_seteq. exact Hs.
+  - rewrite (track post a1 s2 b HI2 Hb Hl Hp2 Hc2), Hn.
+    apply held_later_ext. intros g. apply told_cond_seteq. exact Hs.
 Qed.
 
-(* no lost wake-up: the channel is open only if the condition never held on
-   the told activity, neither when subscribing nor at the end of a later
-   processed transition *)
-Theorem when_no_lost_wakeup_lemma : forall a0 pre k v neg sts ctx post,
-  let es := pre ++ EOp k v (when_op neg sts ctx) :: post in
-  forallb plain_ev es = true -> coherent a0 es -> fresh_k k post -> known v sts = true ->
-  let a1 := acts a0 pre in
-  told_cond neg sts a1 || held_later (told_cond neg sts) a1 post = true ->
-  closed_of (run init_sst es) k = true.
-Proof.
-  intros a0 pre k v neg sts ctx post es Hp Hc Hf Hk a1 Hheld.
-  destruct (closed_of (run init_sst es) k) eqn:Ecl; [reflexivity|]. exfalso.
-  pose proof (when_iff_lemma a0 pre k v neg sts ctx post Hp Hc Hf Hk) as Hiff.
-  cbv zeta in Hiff. fold es a1 in Hiff. rewrite Ecl in Hiff.
-  symmetry in Hiff. apply orb_false_iff in Hiff. destruct Hiff as [Ht _].
-  rewrite Ht in Hheld. cbn [orb] in Hheld.
-  (* redo the decomposition to use the second half of [track] *)
-  subst es. rewrite forallb_app in Hp. apply andb_true_iff in Hp. destruct Hp as [Hp1 Hp2].
-  cbn [forallb] in Hp2. apply andb_true_iff in Hp2. destruct Hp2 as [Hpe Hp2].
-  apply coherent_app in Hc. destruct Hc as [Hc1 Hc2]. fold a1 in Hc2.
-  apply coherent_cons in Hc2. destruct Hc2 as [Hce Hc2].
-  assert (Ha : act_upd a1 (EOp k v (when_op neg sts ctx)) = a1) by reflexivity.
-  rewrite Ha in Hc2.
-  destruct (run_Inv pre a0 init_sst (Inv_init a0) Hp1 Hc1) as [HI1 Hm1]. fold a1 in HI1.
-  rewrite run_app, run_cons in Ecl.
-  set (s1 := run init_sst pre) in *.
-  destruct (after_subscribe a1 s1 k v neg sts ctx HI1 Hpe Hce Hk) as [HI2 Hcase].
-  set (s2 := step s1 (EOp k v (when_op neg sts ctx))) in *.
-  unfold closed_of in Ecl. rewrite (ret_stable post a1 s2 k HI2 Hp2 Hc2 Hf) in Ecl.
-  destruct Hcase as [[Ht' _]|[_ [b [Hb [Hr [Hl [Hn Hs]]]]]]]; [congruence|].
-  rewrite Hr in Ecl.
-  destruct (track post a1 s2 b HI2 Hb Hl Hp2 Hc2) as [_ T]. specialize (T Ecl).
-  rewrite Hn in T.
-  rewrite (held_later_ext (told_cond neg (wb_states b)) (told_cond neg sts)) in T.
-  - congruence.
-  - intros g. apply told_cond_seteq. exact Hs.
-Qed.
-
-(* ------------------------------------------------------------ single state *)
-
-Lemma nth_in_firstn : forall (l : list nat) i d, i < length l -> In (nth i l d) (firstn (S i) l).
-Proof.
-  induction l as [|x r IH]; intros i d H; simpl in H; [lia|].
-  destruct i as [|i]; [left; reflexivity|]. cbn [nth]. rewrite firstn_cons. right. apply IH. lia.
-Qed.
-
-Lemma walk_full_single : forall neg x a act deact,
-  walk_full neg [x] a act deact = mem x (act ++ deact) && Bool.eqb (mem x act) (negb neg).
-Proof.
-  intros neg x a act deact. unfold walk_full. set (all := act ++ deact).
-  match goal with |- existsb ?f _ = _ => set (pred := f) end.
-  destruct (mem x all && Bool.eqb (mem x act) (negb neg)) eqn:E.
-  - apply andb_true_iff in E. destruct E as [E1 E2]. apply mem_In in E1.
-    destruct (In_nth all x 0 E1) as [i [Hi Hn]].
-    apply existsb_exists. exists (S i). split; [apply in_seq; lia|].
-    unfold pred. replace (S i - 1) with i by lia. rewrite Hn. cbn [mem existsb forallb].
-    rewrite Nat.eqb_refl. cbn [orb andb]. rewrite andb_true_r.
-    unfold hybrid. assert (Hm : mem x (firstn (S i) all) = true).
-    { apply mem_In. rewrite <- Hn. apply nth_in_firstn. exact Hi. }
-    rewrite Hm. exact E2.
-  - destruct (existsb pred (seq 1 (length all))) eqn:Ex; [|reflexivity]. exfalso.
-    apply existsb_exists in Ex. destruct Ex as [n [Hn Hp]]. apply in_seq in Hn.
-    unfold pred in Hp. cbn [mem existsb forallb] in Hp. rewrite orb_false_r, andb_true_r in Hp.
-    apply andb_true_iff in Hp. destruct Hp as [Hp1 Hp2]. apply Nat.eqb_eq in Hp1.
-    assert (Hi : n - 1 < length all) by lia.
-    assert (Hx : In x all). { rewrite <- Hp1. apply nth_In. exact Hi. }
-    assert (Hm : mem x (firstn n all) = true).
-    { apply mem_In. rewrite <- Hp1 at 1. replace n with (S (n - 1)) at 2 by lia.
-      apply nth_in_firstn. exact Hi. }
-    unfold hybrid in Hp2. rewrite Hm in Hp2.
-    apply mem_In in Hx. rewrite Hx, Hp2 in E. discriminate.
-Qed.
-
-Lemma walked_single : forall neg x post a,
-  Bool.eqb (a x) (negb neg) = false ->
-  walked_later neg [x] a post = held_later (fun a' => Bool.eqb (a' x) (negb neg)) a post.
-Proof.
-  intros neg x. induction post as [|e r IH]; intros a Ha; [reflexivity|].
-  cbn [walked_later held_later].
-  destruct e as [k v o|ac de|ac de bf lv qt| |v p| |qt0]; try (cbn [act_upd orb]; apply IH; exact Ha).
-  rewrite walk_full_single. cbn [act_upd]. rewrite mem_app.
-  destruct (mem x ac) eqn:E1.
-  - cbn [orb andb]. destruct (Bool.eqb true (negb neg)) eqn:E; [reflexivity|]. cbn [orb].
-    apply IH. cbn. rewrite E1. exact E.
-  - cbn [orb]. destruct (mem x de) eqn:E2.
-    + cbn [andb]. destruct (Bool.eqb false (negb neg)) eqn:E; [reflexivity|]. cbn [orb].
-      apply IH. cbn. rewrite E1, E2. exact E.
-    + cbn [andb orb]. rewrite Ha. cbn [orb]. apply IH. cbn. rewrite E1, E2. exact Ha.
-Qed.
-
-(* When1 / WhenNot1: closed <-> the state was (in)active on the told activity
-   when subscribing or at the end of a later processed transition *)
+(* When1 / WhenNot1 *)
 Theorem when_single_state_iff_lemma : forall a0 pre k v neg x ctx post,
   let es := pre ++ EOp k v (when_op neg [x] ctx) :: post in
   forallb plain_ev es = true -> coherent a0 es -> fresh_k k post -> known v [x] = true ->
@@ -1773,7 +1847,6 @@ Theorem when_single_state_iff_lemma : forall a0 pre k v neg x ctx post,
 Proof.
   intros a0 pre k v neg x ctx post es Hp Hc Hf Hk a1.
   pose proof (when_iff_lemma a0 pre k v neg [x] ctx post Hp Hc Hf Hk) as H.
-  cbv zeta in H. fold es a1 in H. rewrite H. unfold told_cond. cbn [forallb]. rewrite andb_true_r.
-  destruct (Bool.eqb (a1 x) (negb neg)) eqn:E; [reflexivity|]. cbn [orb].
-  apply walked_single. exact E.
+  cbv zeta in H. fold es a1 in H. rewrite H. unfold told_cond at 1. cbn [forallb]. rewrite andb_true_r.
+  f_equal. apply held_later_ext. intros g. unfold told_cond. cbn [forallb]. apply andb_true_r.
 Qed.
